@@ -394,4 +394,195 @@ example : Item.pos fixture (.lit (.int 4)) 0 = some 5 := by decide
 example : (Item.ins fixture (.lit (.int 9)) 5).toOption
     = some (.list [.lit (.int 1), .lit (.int 2), .list [.lit (.int 3)], .lit (.int 9)]) := by rfl
 
+/-! # Second part — SUBST, CONTAINER and DISCREPANCY against the list structure -/
+
+/-! ## CODE.SUBST -/
+
+/-- a matching item is replaced as a whole -/
+theorem subst_root (t p sub : Item) (h : Item.equals t p = true) : Item.subst t p sub = sub := by
+  unfold Item.subst; simp [h]
+
+mutual
+/-- **only matches are replaced**: an item none of whose points matches is left exactly as it is -/
+theorem subst_no_match (t p sub : Item) (h : ∀ q ∈ Item.points t, Item.equals q p = false) :
+    Item.subst t p sub = t := by
+  have hroot : Item.equals t p = false := h t (by cases t <;> simp [Item.points])
+  unfold Item.subst
+  simp only [hroot, Bool.false_eq_true, if_false]
+  cases t with
+  | list xs =>
+    have := substL_no_match xs p sub (fun q hq => h q (by simp [Item.points, hq]))
+    simp [this]
+  | _ => rfl
+theorem substL_no_match (xs : List Item) (p sub : Item) (h : ∀ q ∈ Item.pointsL xs, Item.equals q p = false) :
+    Item.substL xs p sub = xs := by
+  cases xs with
+  | nil => simp [Item.substL]
+  | cons x xs =>
+    simp only [Item.substL]
+    rw [subst_no_match x p sub (fun q hq => h q (by simp [Item.pointsL, hq])),
+        substL_no_match xs p sub (fun q hq => h q (by simp [Item.pointsL, hq]))]
+end
+
+/-- **all matches are replaced, top-down**: a non-matching list is rebuilt from the substituted
+children, one for one (so the list structure outside the matches is kept) -/
+theorem subst_list (xs : List Item) (p sub : Item) (h : Item.equals (.list xs) p = false) :
+    Item.subst (.list xs) p sub = .list (xs.map fun x => Item.subst x p sub) := by
+  have hL : ∀ ys : List Item, Item.substL ys p sub = ys.map fun x => Item.subst x p sub := by
+    intro ys; induction ys with
+    | nil => simp [Item.substL]
+    | cons y ys ih => simp [Item.substL, ih]
+  conv => lhs; unfold Item.subst
+  simp only [h, Bool.false_eq_true, if_false, hL]
+
+/-- a non-matching atom is kept -/
+theorem subst_atom (t p sub : Item) (h : Item.equals t p = false) (ha : isList t = false) :
+    Item.subst t p sub = t := by
+  unfold Item.subst
+  cases t <;> simp_all [isList]
+
+/-! ## CODE.CONTAINER -/
+
+/-- the list scan reports "no match" or a container, never "this item is the match" -/
+theorem containerL_ne_true (xs : List Item) (p parent : Item) : Item.containerL xs p parent ≠ .error true := by
+  induction xs with
+  | nil => simp [Item.containerL]
+  | cons x xs ih =>
+    simp only [Item.containerL]
+    split <;> simp_all
+
+mutual
+/-- the container returned is a list, it is a point of the searched item, and one of its DIRECT
+elements is a match: it is the innermost (smallest) list enclosing that match -/
+theorem container_spec (t p c : Item) (h : Item.container t p = .ok c) :
+    c ∈ Item.points t ∧ ∃ xs, c = .list xs ∧ ∃ x ∈ xs, Item.equals x p = true := by
+  unfold Item.container at h
+  split at h
+  · cases h
+  · cases t with
+    | list xs =>
+      simp only at h
+      obtain ⟨hm, hx⟩ := containerL_spec xs p (.list xs) c h
+      refine ⟨?_, ?_⟩
+      · rcases hm with hm | hm
+        · simp [Item.points, hm]
+        · simp [Item.points, hm]
+      · rcases hx with ⟨ys, rfl, x, hx, he⟩ | ⟨rfl, x, hx, he⟩
+        · exact ⟨ys, rfl, x, hx, he⟩
+        · exact ⟨xs, rfl, x, hx, he⟩
+    | _ => simp at h
+theorem containerL_spec (xs : List Item) (p parent c : Item) (h : Item.containerL xs p parent = .ok c) :
+    (c ∈ Item.pointsL xs ∨ c = parent) ∧
+    ((∃ ys, c = .list ys ∧ ∃ x ∈ ys, Item.equals x p = true) ∨ (c = parent ∧ ∃ x ∈ xs, Item.equals x p = true)) := by
+  cases xs with
+  | nil => simp [Item.containerL] at h
+  | cons x xs =>
+    simp only [Item.containerL] at h
+    split at h
+    · next c' hc =>
+      cases h
+      obtain ⟨h1, ys, h2, h3⟩ := container_spec x p c hc
+      exact ⟨Or.inl (by simp [Item.pointsL, h1]), Or.inl ⟨ys, h2, h3⟩⟩
+    · next hc =>
+      cases h
+      have hx : Item.equals x p = true := by
+        unfold Item.container at hc
+        split at hc
+        · assumption
+        · cases x with
+          | list ys => exact absurd hc (containerL_ne_true ys p (.list ys))
+          | _ => simp at hc
+      exact ⟨Or.inr rfl, Or.inr ⟨rfl, x, by simp, hx⟩⟩
+    · next hc =>
+      obtain ⟨h1, h2⟩ := containerL_spec xs p parent c h
+      refine ⟨?_, ?_⟩
+      · rcases h1 with h1 | h1
+        · exact Or.inl (by simp [Item.pointsL, h1])
+        · exact Or.inr h1
+      · rcases h2 with h2 | ⟨h2, y, hy, he⟩
+        · exact Or.inl h2
+        · exact Or.inr ⟨h2, y, by simp [hy], he⟩
+end
+
+/-! ## CODE.DISCREPANCY -/
+
+/-- number of positions present in both lists at which the printed elements differ -/
+def mismatches (fs ss : List Item) : Nat :=
+  ((fs.zip ss).filter fun (x, y) => y.show != x.show).length
+
+theorem zipIdx_filter_eq (fs ss pre : List Item) :
+    ((fs.zipIdx pre.length).filter fun (x, i) => match (pre ++ ss)[i]? with
+      | some y => y.show != x.show
+      | none => false).length = mismatches fs ss := by
+  induction fs generalizing ss pre with
+  | nil => simp [mismatches]
+  | cons x fs ih =>
+    cases ss with
+    | nil =>
+      simp only [mismatches, List.zip_nil_right, List.filter_nil, List.length_nil, List.append_nil]
+      rw [List.length_eq_zero_iff, List.filter_eq_nil_iff]
+      intro ⟨a, i⟩ hmem
+      have := List.le_snd_of_mem_zipIdx hmem
+      simp only at this
+      simp [List.getElem?_eq_none (by omega : pre.length ≤ i)]
+    | cons y ss =>
+      have := ih ss (pre ++ [y])
+      simp only [List.length_append, List.length_singleton, List.append_assoc, List.singleton_append] at this
+      simp only [List.zipIdx_cons, List.filter_cons, mismatches, List.zip_cons_cons]
+      have hk : (pre ++ y :: ss)[pre.length]? = some y := by simp
+      simp only [hk]
+      split <;> simp_all [mismatches]
+
+theorem mismatches_comm (fs ss : List Item) : mismatches fs ss = mismatches ss fs := by
+  induction fs generalizing ss with
+  | nil => simp [mismatches]
+  | cons x fs ih =>
+    cases ss with
+    | nil => simp [mismatches]
+    | cons y ss =>
+      have := ih ss
+      simp only [mismatches, List.zip_cons_cons, List.filter_cons] at this ⊢
+      by_cases h : y.show = x.show
+      · simp [h, this]
+      · have h' : ¬ x.show = y.show := fun e => h e.symm
+        simp [h, h', this]
+
+theorem mismatches_self (fs : List Item) : mismatches fs fs = 0 := by
+  induction fs with
+  | nil => simp [mismatches]
+  | cons x fs ih =>
+    simp only [mismatches, List.zip_cons_cons, List.filter_cons, bne_self_eq_false]
+    simpa [mismatches] using ih
+
+/-- the model's DISCREPANCY in closed form -/
+theorem discrepancy_lists (fs ss : List Item) :
+    discrepancy (.list fs) (.list ss) = lenI32 (mismatches fs ss + ((fs.length : Int) - (ss.length : Int)).natAbs) := by
+  have := zipIdx_filter_eq fs ss []
+  simp only [List.length_nil, List.nil_append] at this
+  simp only [discrepancy]
+  rw [← this]
+  rfl
+
+/-- **DISCREPANCY is symmetric** -/
+theorem discrepancy_symm (a b : Item) : discrepancy a b = discrepancy b a := by
+  have atomic : ∀ x y : Item, (if x.show != y.show then (1 : Int32) else 0) = (if y.show != x.show then (1 : Int32) else 0) := by
+    intro x y
+    by_cases h : x.show = y.show
+    · simp [h]
+    · have h' : ¬ y.show = x.show := fun e => h e.symm
+      simp [h, h']
+  cases a <;> cases b
+  case list.list fs ss =>
+    rw [discrepancy_lists, discrepancy_lists, mismatches_comm]
+    congr 2
+    omega
+  all_goals (unfold discrepancy; exact atomic _ _)
+
+/-- **DISCREPANCY of an item with itself is zero** -/
+theorem discrepancy_self (a : Item) : discrepancy a a = 0 := by
+  cases a with
+  | list fs => rw [discrepancy_lists, mismatches_self]; simp [lenI32]
+  | _ => simp [discrepancy]
+
+
 end Pushr.C08
